@@ -1888,6 +1888,20 @@ func signingParamsForPublicKey(pub interface{}, requestedSigAlgo SignatureAlgori
 	return
 }
 
+// signingInput returns what has to be handed to signer.Sign for the DER
+// encoding tbs. An SM2 signer computes SM3(Z || message) itself, and
+// checkSignature hands the unhashed message to sm2.Sm2Verify for every
+// SM2With* algorithm, so an SM2 key is given tbs as it is. Every other key
+// type signs the hashFunc digest of tbs.
+func signingInput(pub crypto.PublicKey, hashFunc Hash, tbs []byte) []byte {
+	if _, ok := pub.(*sm2.PublicKey); ok {
+		return tbs
+	}
+	h := hashFunc.New()
+	h.Write(tbs)
+	return h.Sum(nil)
+}
+
 // CreateCertificateToMem creates a new certificate based on a template. The
 // following members of template are used: SerialNumber, Subject, NotBefore,
 // NotAfter, KeyUsage, ExtKeyUsage, UnknownExtKeyUsage, BasicConstraintsValid,
@@ -1983,15 +1997,7 @@ func (c *Certificate) CreateCRL(rand io.Reader, priv interface{}, revokedCerts [
 		return
 	}
 
-	digest := tbsCertListContents
-	switch hashFunc {
-	case SM3:
-		break
-	default:
-		h := hashFunc.New()
-		h.Write(tbsCertListContents)
-		digest = h.Sum(nil)
-	}
+	digest := signingInput(key.Public(), hashFunc, tbsCertListContents)
 
 	var signature []byte
 	signature, err = key.Sign(rand, digest, hashFunc)
@@ -2263,15 +2269,7 @@ func CreateCertificateRequest(rand io.Reader, template *CertificateRequest, sign
 	}
 	tbsCSR.Raw = tbsCSRContents
 
-	digest := tbsCSRContents
-	switch template.SignatureAlgorithm {
-	case SM2WithSM3, SM2WithSHA1, SM2WithSHA256, UnknownSignatureAlgorithm:
-		break
-	default:
-		h := hashFunc.New()
-		h.Write(tbsCSRContents)
-		digest = h.Sum(nil)
-	}
+	digest := signingInput(signer.Public(), hashFunc, tbsCSRContents)
 
 	var signature []byte
 	signature, err = signer.Sign(rand, digest, hashFunc)
@@ -2579,15 +2577,7 @@ func CreateRevocationList(rand io.Reader, template *RevocationList, issuer *Cert
 		return nil, err
 	}
 
-	digest := tbsCertListContents
-	switch hashFunc {
-	case SM3:
-		break
-	default:
-		h := hashFunc.New()
-		h.Write(tbsCertListContents)
-		digest = h.Sum(nil)
-	}
+	digest := signingInput(priv.Public(), hashFunc, tbsCertListContents)
 	var signerOpts crypto.SignerOpts = hashFunc
 	if template.SignatureAlgorithm.isRSAPSS() {
 		signerOpts = &rsa.PSSOptions{
